@@ -1,64 +1,106 @@
 (* C18/Driver.v — entry point of the correspondence run (extracted to OCaml): the model,
    driven by the generated tables, answers what harness/src/bin/c18.rs observes on the
-   live methods.  The base register file holds the sentinel -1 everywhere ("B" = still
-   the base value); set_register(name, value) is applied to it. *)
+   live methods.  Two base register files:
+   - pattern mode (no fill): every location holds the sentinel -1 (the harness starts from a
+     byte pattern whose layout the model does not know);
+   - fill mode: every 32-bit word of the context is the case's fill word W, so every integer
+     field of width w holds W repeated ([fill_value]); the fields and their widths come from
+     the generated [ct_fields].  This is how the flag-like fields (cpsr, eflags, ...) take
+     every bit pattern without any field being named.
+   An explicit context_flags value is written over either.  set_register(name, value) is then
+   applied; a value is shown as "B" when the same read returned the same value before. *)
 From RM Require Import C18.Model Gen.ContextTables.
 Open Scope Z_scope.
 
 Inductive cell :=
 | CName (n : name) | CNum (z : Z) | CB | CN | CP
-| CNames (l : list name) | CSorted (l : list name) | CPairs (l : list (name * Z))
-| CFmt (z : Z) (digits : Z).
+| CNames (l : list name) | CSorted (l : list name) | CPairs (l : list (name * Z)).
 
-Definition base : regfile := fun _ _ => -1.
-Definition num (z : Z) : cell := if z =? -1 then CB else CNum z.
-Definition cell_out (o : outcome Z) : cell :=
-  match o with Ret x => num x | _ => CP end.
-Definition cell_opt (o : outcome (option Z)) : cell :=
-  match o with Ret (Some x) => num x | Ret None => CN | _ => CP end.
+Definition fill_value (w fill : Z) : Z :=
+  (fill * (1 + 2 ^ 32 + 2 ^ 64 + 2 ^ 96)) mod 2 ^ w.
+Fixpoint field_width (f : name) (fs : list (name * Z * Z)) : option Z :=
+  match fs with
+  | [] => None
+  | (g, w, _) :: r => if name_eqb f g then Some w else field_width f r
+  end.
+Definition n_context_flags : name := [99; 111; 110; 116; 101; 120; 116; 95; 102; 108; 97; 103; 115].
+Definition base_of (c : ctx_table) (fill flags : option Z) : regfile :=
+  let rf0 : regfile :=
+    match fill with
+    | None => fun _ _ => -1
+    | Some w32 => fun f _ => match field_width f (ct_fields c) with Some w => fill_value w w32 | None => -1 end
+    end in
+  match flags, field_width n_context_flags (ct_fields c) with
+  | Some fl, Some w => upd rf0 (mkloc n_context_flags (-1) w (-1)) (fl mod 2 ^ w)
+  | _, _ => rf0
+  end.
+
+Definition shown (x : outcome Z) (before : outcome Z) : cell :=
+  match x, before with
+  | Ret a, Ret b => if a =? b then CB else CNum a
+  | Ret a, _ => CNum a
+  | _, _ => CP
+  end.
+Definition shown_opt (x : outcome (option Z)) (before : outcome Z) : cell :=
+  match x with
+  | Ret (Some a) => shown (Ret a) before
+  | Ret None => CN
+  | _ => CP
+  end.
 Definition cell_names (o : outcome (list (name * Z))) (sorted : bool) : cell :=
   match o with
   | Ret l => if sorted then CSorted (map fst l) else CNames (map fst l)
   | _ => CP
   end.
-Fixpoint changed (c : ctx_table) (rf : regfile) (rs : list name) : list (name * Z) :=
+Fixpoint changed (c : ctx_table) (rf0 rf : regfile) (rs : list name) : list (name * Z) :=
   match rs with
   | [] => []
-  | r :: t => match get_always c rf r with
-              | Ret x => if x =? -1 then changed c rf t else (r, x) :: changed c rf t
-              | _ => changed c rf t
+  | r :: t => match get_always c rf r, get_always c rf0 r with
+              | Ret x, Ret b => if x =? b then changed c rf0 rf t else (r, x) :: changed c rf0 rf t
+              | _, _ => changed c rf0 rf t
               end
   end.
+Definition same (a b : outcome Z) : bool :=
+  match a, b with Ret x, Ret y => x =? y | _, _ => false end.
 
 Definition find_ctx (variant : name) : option ctx_table :=
   find (fun c => name_eqb (ct_variant c) variant) all_contexts.
 
-Definition k (s : list Z) : name := s.
-
-Definition run_case (variant n : name) (v : validity) (value : Z) : option (list cell) :=
+Definition run_case (variant n : name) (v : validity) (value : Z) (flags fill : option Z) : option (list cell) :=
   match find_ctx variant with
   | None => None
   | Some c =>
+      let base := base_of c fill flags in
       let st := set_reg c base n value in
       let rf1 := match st with Ret (Some rf') => rf' | _ => base end in
+      let before := get_always c base n in
       let ga := get_always c rf1 n in
       Some [
         match memoize c n with Some m => CName m | None => CN end;                 (* mz *)
         match st with Ret (Some _) => CNum 1 | Ret None => CNum 0 | _ => CP end;   (* st *)
-        cell_out ga;                                                               (* ga *)
-        cell_opt (get_register c rf1 n VAll);                                      (* gA *)
-        cell_opt (get_register c rf1 n v);                                         (* gr *)
+        shown ga before;                                                           (* ga *)
+        shown_opt (get_register c rf1 n VAll) before;                              (* gA *)
+        shown_opt (get_register c rf1 n v) before;                                 (* gr *)
         CNum (if is_valid c n v then 1 else 0);                                    (* iv *)
-        CPairs (changed c rf1 (ct_registers c));                                   (* ch *)
-        cell_out (md_stack_pointer c rf1);                                         (* sp *)
-        cell_out (md_instruction_pointer c rf1);                                   (* ip *)
+        CPairs (changed c base rf1 (ct_registers c));                              (* ch *)
+        shown (md_stack_pointer c rf1) (md_stack_pointer c base);                  (* sp *)
+        shown (md_instruction_pointer c rf1) (md_instruction_pointer c base);      (* ip *)
         CName (ct_sp_name c); CName (ct_ip_name c);                                (* spn ipn *)
         cell_names (md_registers c rf1) false;                                     (* rn *)
         cell_names (md_valid_registers c rf1 v) false;                             (* vn *)
         cell_names (cpu_valid_registers c rf1 VAll) false;                         (* cr *)
         cell_names (cpu_valid_registers c rf1 v) true;                             (* cv *)
         CNum (register_size c);                                                    (* sz *)
-        match ga with Ret x => if x =? -1 then CB else CFmt x (register_size c * 2) | _ => CP end;  (* fm *)
-        cell_opt (get_register c rf1 n v)                                          (* mg *)
+        match format_register c rf1 n, ga, before with                             (* fm *)
+        | Ret s, Ret x, Ret b => if x =? b then CB else CName s
+        | Ret s, _, _ => CName s
+        | _, _, _ => CP
+        end;
+        shown_opt (get_register c rf1 n v) before;                                 (* mg *)
+        (* the dedicated accessors against the by-name reads, before and after the set *)
+        CNum (if same (md_stack_pointer c base) (get_always c base (ct_sp_name c)) &&
+                 same (md_stack_pointer c rf1) (get_always c rf1 (ct_sp_name c)) then 1 else 0);             (* sa *)
+        CNum (if same (md_instruction_pointer c base) (get_always c base (ct_ip_name c)) &&
+                 same (md_instruction_pointer c rf1) (get_always c rf1 (ct_ip_name c)) then 1 else 0)        (* ia *)
       ]
   end.
